@@ -13,6 +13,7 @@ import (
 
 	"verifharness/fw"
 	"verifharness/ref/dmref"
+	"verifharness/ref/gf"
 	"verifharness/ref/qrref"
 )
 
@@ -108,6 +109,8 @@ func c05QRDamage(r *fw.Rec, s *qrSym, kind int) bool {
 		}
 		seen := map[int]bool{}
 		cnt := 0
+		sameMask, synAcc, synJ := byte(1+rng.Intn(255)), 0, rng.Intn(2*maxInt(t, 1))
+		_, _, _ = sameMask, synAcc, synJ
 		for _, pi := range perm {
 			if cnt >= k {
 				break
@@ -120,12 +123,31 @@ func c05QRDamage(r *fw.Rec, s *qrSym, kind int) bool {
 			if kind == 4 {
 				x = 0xFF
 			}
+			if kind == 5 { // the same error value everywhere, an even number of times: the plain XOR over the block is unchanged
+				x = sameMask
+				if cnt == k-1 && k%2 == 1 && k > 1 {
+					break
+				}
+			}
+			if kind == 6 { // error values chosen so that ONE syndrome of the block stays zero
+				deg := len(idxs) - 1 - pi
+				root := gf.QR256.Pow((0 + synJ) % 255)
+				w := gf.QR256.PowOf(root, deg)
+				if cnt == k-1 && k > 1 {
+					if synAcc == 0 {
+						break
+					}
+					x = byte(gf.QR256.Mul(synAcc, gf.QR256.Inv(w)))
+				} else {
+					synAcc ^= gf.QR256.Mul(int(x), w)
+				}
+			}
 			flipCodeword(m, s.mods[idxs[pi]], x)
 			damaged = append(damaged, idxs[pi])
 			cnt++
 		}
 	}
-	kinds := []string{"t-per-block", "random-below-t", "one-block-at-t", "extreme-positions", "inverted-codewords"}
+	kinds := []string{"t-per-block", "random-below-t", "one-block-at-t", "extreme-positions", "inverted-codewords", "same-error-value-even-count", "one-syndrome-stays-zero"}
 	ok := s.decodeAndCheck(r, m, fmt.Sprintf("%d damaged codewords (%s, t=%d per block, %d blocks)", len(damaged), kinds[kind], t, nb), "qr.codewords:"+kinds[kind], map[string]interface{}{"damaged_codewords": damaged})
 	if ok {
 		r.Tally("qr_damage_" + kinds[kind])
@@ -291,6 +313,8 @@ func c05DMDamage(r *fw.Rec, d *dmSym, kind int) bool {
 		}
 		seen := map[int]bool{}
 		cnt := 0
+		sameMask, synAcc, synJ := byte(1+rng.Intn(255)), 0, rng.Intn(2*maxInt(t, 1))
+		_, _, _ = sameMask, synAcc, synJ
 		for _, pi := range perm {
 			if cnt >= k {
 				break
@@ -303,12 +327,31 @@ func c05DMDamage(r *fw.Rec, d *dmSym, kind int) bool {
 			if kind == 4 {
 				x = 0xFF
 			}
+			if kind == 5 {
+				x = sameMask
+				if cnt == k-1 && k%2 == 1 && k > 1 {
+					break
+				}
+			}
+			if kind == 6 {
+				deg := len(idxs) - 1 - pi
+				root := gf.DM256.Pow((1 + synJ) % 255)
+				w := gf.DM256.PowOf(root, deg)
+				if cnt == k-1 && k > 1 {
+					if synAcc == 0 {
+						break
+					}
+					x = byte(gf.DM256.Mul(synAcc, gf.DM256.Inv(w)))
+				} else {
+					synAcc ^= gf.DM256.Mul(int(x), w)
+				}
+			}
 			flipCodeword(m, d.mods[idxs[pi]], x)
 			damaged = append(damaged, idxs[pi])
 			cnt++
 		}
 	}
-	kinds := []string{"t-per-block", "random-below-t", "", "extreme-positions", "inverted-codewords"}
+	kinds := []string{"t-per-block", "random-below-t", "", "extreme-positions", "inverted-codewords", "same-error-value-even-count", "one-syndrome-stays-zero"}
 	ok := d.decodeAndCheck(r, m, fmt.Sprintf("%d damaged codewords (%s, t=%d per block, %d blocks)", len(damaged), kinds[kind], t, d.s.Blocks), "dm.codewords:"+kinds[kind], map[string]interface{}{"damaged_codewords": damaged})
 	if ok {
 		r.Tally("dm_damage_" + kinds[kind])
@@ -317,7 +360,7 @@ func c05DMDamage(r *fw.Rec, d *dmSym, kind int) bool {
 }
 
 func c05(c *fw.Ctx) {
-	c.Rule("library-written QR symbols of all 160 (version, level) pairs and Data Matrix symbols of all 30 sizes; damage applied as module flips at codeword positions computed by qrref/dmref: per RS block up to t = floor(ec/2) codewords with arbitrary replacement values (all blocks at t, random below t, one block at t, first/last positions incl. the long block's extra byte, fully inverted codewords); thorough: every single codeword position of every block; QR format information: every subset of <= 3 of 15 bits of one copy with an independent random <= 3-bit error in the other copy; version information likewise (18 bits, versions >= 7); histories of damaged symbols with many-then-few error-correction codewords per block on ONE decoder instance; oracle: decoded text identical; distinct = distinct (symbol, damage pattern)")
+	c.Rule("library-written QR symbols of all 160 (version, level) pairs and Data Matrix symbols of all 30 sizes; damage applied as module flips at codeword positions computed by qrref/dmref: per RS block up to t = floor(ec/2) codewords with arbitrary replacement values (all blocks at t, random below t, one block at t, first/last positions incl. the long block's extra byte, fully inverted codewords, the same error value an even number of times, error values chosen so that one syndrome of the block stays zero); thorough: every single codeword position of every block; QR format information: every subset of <= 3 of 15 bits of one copy with an independent random <= 3-bit error in the other copy; version information likewise (18 bits, versions >= 7); histories of damaged symbols with many-then-few error-correction codewords per block on ONE decoder instance; oracle: decoded text identical; distinct = distinct (symbol, damage pattern)")
 	c.Assume("qrref.CodewordModules / dmref.CodewordModules give the module positions of every codeword bit (cross-checked by C07/C08: the same functions build the reference symbols that the library reproduces module for module)")
 	reps := c.Pick(1, 4)
 	for v := 1; v <= 40; v++ {
@@ -332,7 +375,7 @@ func c05(c *fw.Ctx) {
 					if !s.decodeAndCheck(r, s.m, "no damage", "qr.clean", nil) {
 						return
 					}
-					for kind := 0; kind < 5; kind++ {
+					for kind := 0; kind < 7; kind++ {
 						for k := 0; k < 2; k++ {
 							if !c05QRDamage(r, s, kind) {
 								return
@@ -413,7 +456,7 @@ func c05(c *fw.Ctx) {
 				if !d.decodeAndCheck(r, d.m, "no damage", "dm.clean", nil) {
 					return
 				}
-				for _, kind := range []int{0, 1, 3, 4} {
+				for _, kind := range []int{0, 1, 3, 4, 5, 6} {
 					for k := 0; k < 3; k++ {
 						if !c05DMDamage(r, d, kind) {
 							return
